@@ -505,7 +505,8 @@ Record en_spec := mk_en { e_g1 : bytes; e_c : Z; e_t : bytes; e_w1 : bytes; e_w2
 Definition en_ok (e : en_spec) : Prop :=
   run_of p_blank (e_g1 e) /\ ascii (e_c e) /\ p_start (e_c e) = true /\ run_of p_cont (e_t e)
   /\ run_of p_wsnl (e_w1 e) /\ run_of p_wsnl (e_w2 e) /\ evs_ok (e_vs e)
-  /\ run_of p_blank (e_g3 e) /\ run_of p_wsnl (e_w e).
+  /\ run_of p_blank (e_g3 e) /\ run_of p_wsnl (e_w e)
+  /\ enum_overflow (map ev_pair (e_vs e)) 0 false = None.
 Definition render_enum (e : en_spec) (more : bytes) : bytes :=
   lit_enum ++ e_g1 e ++ (e_c e :: e_t e) ++ e_w1 e ++ 123 :: e_w2 e
   ++ render_evs (e_vs e) (125 :: e_g3 e ++ 10 :: e_w e ++ more).
@@ -532,7 +533,7 @@ Lemma enum_rule : forall e more cr o es fr,
   exists o', evals (CRef 7) cr (st_of (render_enum e more) o es) fr
                    (Done true (VEnum (enum_of e)) (st_of (e_w e ++ more) o' es) fr).
 Proof.
-  intros [g1 c t w1 w2 vs g3 w] more cr o es fr (Hg1 & Hc & Hp & Ht & Hw1 & Hw2 & Hvs & Hg3 & Hw) Hm.
+  intros [g1 c t w1 w2 vs g3 w] more cr o es fr (Hg1 & Hc & Hp & Ht & Hw1 & Hw2 & Hvs & Hg3 & Hw & Hov) Hm.
   unfold render_enum, enum_of. cbn [e_g1 e_c e_t e_w1 e_w2 e_vs e_g3 e_w] in *.
   destruct enum_shapes as (H7 & _).
   set (tail := g3 ++ 10 :: w ++ more).
@@ -578,7 +579,7 @@ Proof.
     apply S_nil.
   - unfold finish_action, run_action, run_action_opt.
     cbn [fget find fst snd String.eqb Ascii.eqb Bool.eqb to_iface_slice as_ident to_anns obind app rev].
-    rewrite (collect_values vs lvs Hmap). reflexivity.
+    rewrite (collect_values vs lvs Hmap). cbn [obind]. rewrite Hov. reflexivity.
 Qed.
 
 (** ** files that mix typedefs of base types and enums *)
@@ -646,8 +647,8 @@ Qed.
 Lemma decl_w_ok : forall d, decl_ok d -> run_of p_wsnl (decl_w d).
 Proof.
   intros [t|e] H; cbn [decl_ok decl_w] in *.
-  - destruct H as (_ & _ & _ & _ & _ & _ & _ & Hw). exact Hw.
   - destruct H as (_ & _ & _ & _ & _ & _ & _ & _ & Hw). exact Hw.
+  - destruct H as (_ & _ & _ & _ & _ & _ & _ & _ & Hw & _). exact Hw.
 Qed.
 
 Lemma decls_loop : forall ds o es fr acc,
@@ -760,4 +761,37 @@ Proof.
   split.
   - rewrite Hv. rewrite declared_pairs. reflexivity.
   - rewrite Hn. rewrite map_map. apply map_ext. intros v. reflexivity.
+Qed.
+
+(** without any range hypothesis (after the repair of C10-F22): the hypotheses of the round-trip theorem
+    ([en_ok]: explicit numbers are 64-bit integers and the Enum action reports no error) already imply that
+    Apache Thrift's numbering stays inside the 64-bit integers and that the parsed enum carries exactly it *)
+Lemma evs_explicit_in64 : forall vs, evs_ok vs -> explicit_in64 (map ev_pair vs).
+Proof.
+  induction vs as [|v r IH]; intros H; [constructor|]. cbn [evs_ok] in H. destruct H as [Hv Hr].
+  cbn [map]. constructor; [|exact (IH Hr)].
+  destruct Hv as (_ & _ & _ & Htl). unfold ev_pair. cbn [fst snd ev_value].
+  destruct (v_tail v) as [W|g sep W|g1 g z W|g1 g z g2 sep W]; cbn [declared tail_ok_l tail_ok] in *; intros Hex;
+    try discriminate Hex; unfold in64; unfold int64 in Htl; tauto.
+Qed.
+
+Lemma in64_dec : forall z, {in64 z} + {~ in64 z}.
+Proof.
+  intros z. unfold in64. destruct (Z_le_dec (- 9223372036854775808) z); destruct (Z_le_dec z 9223372036854775807);
+    [left; lia | right; lia | right; lia | right; lia].
+Qed.
+
+Lemma enum_of_numbering_ok : forall e,
+  en_ok e ->
+  Forall in64 (thrift_numbering (map (fun v => declared (v_tail v)) (e_vs e)) (-1))
+  /\ map ev_value (en_values (enum_of e)) = thrift_numbering (map (fun v => declared (v_tail v)) (e_vs e)) (-1)
+  /\ map ev_name (en_values (enum_of e)) = map (fun v => v_c v :: v_t v) (e_vs e).
+Proof.
+  intros e (_ & _ & _ & _ & _ & _ & Hvs & _ & _ & Hov).
+  pose proof (enum_numbering_exact (map ev_pair (e_vs e)) (evs_explicit_in64 _ Hvs)) as [Hin Hout].
+  rewrite declared_pairs in Hin, Hout.
+  destruct (Forall_dec in64 in64_dec (thrift_numbering (map (fun v => declared (v_tail v)) (e_vs e)) (-1))) as [Hf|Hnf].
+  - destruct (Hin Hf) as [_ Hv]. split; [exact Hf|]. unfold enum_of. cbn [en_values]. split; [exact Hv|].
+    destruct (enum_number_keeps (map ev_pair (e_vs e)) 0) as (Hn & _). rewrite Hn, map_map. apply map_ext. intros v. reflexivity.
+  - destruct (Hout Hnf) as [v Hv]. rewrite Hov in Hv. discriminate Hv.
 Qed.
